@@ -30,6 +30,8 @@ struct HeartbeatState {
     interval: Duration,
     timeout: Duration,
     last_received: tokio::sync::Mutex<Instant>,
+    /// When the oldest HeartRequest that has not been answered yet was sent.
+    pending_since: tokio::sync::Mutex<Option<Instant>>,
 }
 
 /// Session manages multiple streams over a single TLS connection
@@ -122,6 +124,7 @@ impl Session {
                 interval: cfg.interval,
                 timeout: cfg.timeout,
                 last_received: tokio::sync::Mutex::new(Instant::now()),
+                pending_since: tokio::sync::Mutex::new(None),
             })
         });
 
@@ -769,6 +772,8 @@ impl Session {
                 if let Some(heartbeat_state) = &self.heartbeat {
                     let mut last = heartbeat_state.last_received.lock().await;
                     *last = Instant::now();
+                    // the peer is alive: no request is overdue any more
+                    *heartbeat_state.pending_since.lock().await = None;
                 }
             }
             _ => {
@@ -1204,7 +1209,23 @@ impl Session {
                 ticker.set_missed_tick_behavior(MissedTickBehavior::Delay);
 
                 loop {
-                    ticker.tick().await;
+                    // The session is dead when a request stays unanswered for `timeout`: wait for
+                    // the next tick or for the deadline of the oldest unanswered request,
+                    // whichever comes first. (The age of the last response says nothing when
+                    // timeout < interval, or when answers are merely slow.)
+                    let deadline = {
+                        let pending = heartbeat_state.pending_since.lock().await;
+                        pending.map(|sent| sent + heartbeat_state.timeout)
+                    };
+                    let overdue = tokio::select! {
+                        _ = ticker.tick() => false,
+                        _ = async {
+                            match deadline {
+                                Some(d) => time::sleep_until(d).await,
+                                None => std::future::pending::<()>().await,
+                            }
+                        } => true,
+                    };
 
                     if session.is_closed() {
                         tracing::debug!(
@@ -1214,25 +1235,37 @@ impl Session {
                         break;
                     }
 
-                    let last_seen = {
-                        let guard = heartbeat_state.last_received.lock().await;
-                        Instant::now().saturating_duration_since(*guard)
-                    };
-
-                    if last_seen > heartbeat_state.timeout {
-                        tracing::warn!(
-                            session_id = session_id,
-                            elapsed_ms = last_seen.as_millis() as u64,
-                            "[Session] Heartbeat timeout detected; closing session"
-                        );
-                        if let Err(e) = session.close().await {
-                            tracing::error!(
-                                session_id = session_id,
-                                "[Session] Failed to close session after heartbeat timeout: {}",
-                                e
-                            );
+                    if overdue {
+                        // an answer may have arrived in the meantime
+                        let unanswered_for = {
+                            let pending = heartbeat_state.pending_since.lock().await;
+                            pending.map(|sent| Instant::now().saturating_duration_since(sent))
+                        };
+                        match unanswered_for {
+                            Some(elapsed) if elapsed >= heartbeat_state.timeout => {
+                                tracing::warn!(
+                                    session_id = session_id,
+                                    elapsed_ms = elapsed.as_millis() as u64,
+                                    "[Session] Heartbeat timeout detected; closing session"
+                                );
+                                if let Err(e) = session.close().await {
+                                    tracing::error!(
+                                        session_id = session_id,
+                                        "[Session] Failed to close session after heartbeat timeout: {}",
+                                        e
+                                    );
+                                }
+                                break;
+                            }
+                            _ => continue,
                         }
-                        break;
+                    }
+
+                    {
+                        let mut pending = heartbeat_state.pending_since.lock().await;
+                        if pending.is_none() {
+                            *pending = Some(Instant::now());
+                        }
                     }
 
                     if let Err(e) = session
